@@ -20,6 +20,10 @@ theorem gen_carveNS (ms : List (Bin ℝ)) :
 theorem gen_carve_edges (x : ℝ) : Generated.carve_WD_edge_is_WDmax x = 1 ∧ Generated.carve_BH_edge_is_BHmin x = 1 := by
   simp only [Generated.carve_WD_edge_is_WDmax, Generated.carve_BH_edge_is_BHmin, real_one, and_self]
 
+/-- an integer bin count is divided over `len(m_break) - 1` segments (the binning breaks', not the IMF's) -/
+theorem gen_nseg (x : ℝ) : Generated.bins_nseg_is_breaks_minus_one x = 1 := by
+  simp only [Generated.bins_nseg_is_breaks_minus_one, real_one]
+
 theorem gen_lastLowerLe_cons (l u m : ℝ) (t : List (Bin ℝ)) (i : Nat) (acc : Option Nat) :
     lastLowerLe ((l, u) :: t) m i acc = lastLowerLe t m (i + 1) (if Generated.lookup_le l m then some i else acc) := rfl
 theorem gen_lookup_over (u m : ℝ) : Generated.lookup_over u m = le u m := rfl
